@@ -638,7 +638,7 @@ func (m *concModel) outcome() string {
 }
 
 // all sequential outcomes of the programs (threads' op lists) under the model
-func concModelOutcomes(progs [][]concOp) map[string]bool {
+func concModelOutcomes(progs [][]concOp, pre []concOp) map[string]bool {
 	out := map[string]bool{}
 	type pos struct {
 		idx  []int
@@ -689,7 +689,23 @@ func concModelOutcomes(progs [][]concOp) map[string]bool {
 		}
 	}
 	n := len(progs)
-	rec(&concModel{subs: map[int]bool{}, handlers: map[int]*[]string{}, regd: map[int]bool{}}, make([]int, n), make([]int, n), make([]concStep, n), 0)
+	// the keeper's prefix runs sequentially before the threads start (pseudo-thread n, no handler)
+	m0 := &concModel{subs: map[int]bool{}, handlers: map[int]*[]string{}, regd: map[int]bool{}}
+	rv0 := 0
+	for _, op := range pre {
+		switch op.Kind {
+		case "deliver":
+			if m0.refcount > 0 {
+				rv0++
+				st := concStep{thread: n, kind: "fanout", rv: fmt.Sprint(rv0), old: m0.cache}
+				m0.cache = fmt.Sprint(rv0)
+				m0.apply(st)
+			}
+		default:
+			m0.apply(concStep{thread: n, kind: op.Kind})
+		}
+	}
+	rec(m0, make([]int, n), make([]int, n), make([]concStep, n), rv0)
 	return out
 }
 
@@ -702,10 +718,19 @@ func TestVerifC18Conc(t *testing.T) {
 		{{{"sub"}, {"add"}, {"remove"}, {"close"}}, {{"sub"}, {"add"}, {"deliver"}}},
 		{{{"sub"}, {"close"}}, {{"sub"}, {"add"}, {"deliver"}, {"close"}}},
 	}
+	// programs with a keeper: one subscription is opened (and possibly an object cached) before the threads start,
+	// so that the informer exists whatever the schedule - a handler added late races with a live event
+	pres := map[int][]concOp{}
+	pres[len(programs)] = []concOp{{"sub"}, {"deliver"}}
+	programs = append(programs, [][]concOp{{{"sub"}, {"add"}}, {{"deliver"}}})
+	pres[len(programs)] = []concOp{{"sub"}}
+	programs = append(programs, [][]concOp{{{"sub"}, {"add"}, {"remove"}}, {{"deliver"}, {"deliver"}}})
 	if mc.Thorough() {
 		programs = append(programs,
 			[][]concOp{{{"sub"}, {"add"}, {"close"}}, {{"sub"}, {"add"}, {"close"}}, {{"deliver"}, {"deliver"}}},
 			[][]concOp{{{"sub"}, {"add"}, {"remove"}, {"add"}, {"close"}}, {{"deliver"}}, {{"sub"}, {"close"}, {"sub"}, {"add"}}})
+		pres[len(programs)] = []concOp{{"sub"}, {"deliver"}}
+		programs = append(programs, [][]concOp{{{"sub"}, {"add"}, {"close"}}, {{"deliver"}, {"deliver"}}, {{"sub"}, {"add"}}})
 	}
 	bound := 2
 	if mc.Thorough() {
@@ -716,7 +741,8 @@ func TestVerifC18Conc(t *testing.T) {
 		if pi%shardN != shardI {
 			continue
 		}
-		want := concModelOutcomes(progs)
+		pre := pres[pi]
+		want := concModelOutcomes(progs, pre)
 		sub := mc.NewReport("C18", "tmp")
 		mc.ExploreSchedules(sub, bound, 0, func(s *mc.Sched) ([]func(), func(t *mc.Trace) []mc.Finding) {
 			vtime.Reset()
@@ -725,6 +751,24 @@ func TestVerifC18Conc(t *testing.T) {
 			handlers := make([]*recHandler, len(progs))
 			subsH := make([]*dynamicinformer.ResourceInformer, len(progs))
 			rv := 0
+			var keeper *dynamicinformer.ResourceInformer
+			for _, op := range pre {
+				switch op.Kind {
+				case "sub":
+					ri, err := b.Factory.Resource("v1", "leafs")
+					if err != nil {
+						panic(err)
+					}
+					keeper = ri
+				case "deliver":
+					if inf := b.Factory.VerifInformers()["leafs.v1"]; inf != nil {
+						rv++
+						o := kit.Obj(kit.Leaf, "n1", "x")
+						kit.Field(o, fmt.Sprint(rv), "metadata", "resourceVersion")
+						inf.Set(world.DecodeUnstructured(o))
+					}
+				}
+			}
 			threads := make([]func(), len(progs))
 			for ti := range progs {
 				ti := ti
@@ -778,6 +822,9 @@ func TestVerifC18Conc(t *testing.T) {
 						}
 					}
 				}
+				if keeper != nil {
+					open++
+				}
 				rc := b.Factory.VerifRefCounts()["leafs.v1"]
 				parts = append(parts, fmt.Sprintf("refcount=%d", rc))
 				for ti := range progs {
@@ -806,6 +853,9 @@ func TestVerifC18Conc(t *testing.T) {
 					if subsH[ti] != nil {
 						mc.Recover(func() { subsH[ti].Informer().RemoveEventHandlers() })
 					}
+				}
+				if keeper != nil {
+					mc.Recover(func() { keeper.Close() })
 				}
 				return f
 			}
